@@ -620,3 +620,9 @@ for _p, _r in (("C12", "R12.4"), ("C08", "R8.2")):
 # --- C02: configuration guard of a library transformation (mutation smoke test)
 fire("C02", "cosine-normalisation-negated-in-transform", "R2.6", E(LOT, "SinkhornVectorizer.transform", "            if metric == cosine:\n                vectors = normalize(vectors, norm=\"l2\")", "            if metric != cosine:\n                vectors = normalize(vectors, norm=\"l2\")"),
      "transform l2-normalises the vectors exactly when the metric is not cosine; fit does the opposite")
+
+# --- C08: the SVD tail of the four fit-side drivers (mutation smoke test, seeded r2_C13)
+fire("C08", "svd-flip-swapped-in-one-driver", "R8.6", E(LOT, "lot_vectors_dense", "        u, components = svd_flip(u, v)", "        u, components = svd_flip(v, u)"),
+     "sign fixing with exchanged factors in the dense driver only")
+fire("C08", "svd-iterations-dropped-in-one-driver", "R8.6", E(LOT, "sinkhorn_vectors_sparse", "n_iter=n_svd_iter,", "", count=2),
+     "the Sinkhorn driver runs the SVD with the library default number of iterations")
